@@ -266,6 +266,246 @@ func gammaBodies(reps int) {
 	}
 }
 
+// ownBodies: each render builds objects of its own and returns what the library computed from them.  The renders are run
+// alone first, then by 8 goroutines at once: concurrent callers that share nothing must get what they get alone
+// (package-level scratch buffers, caches and pools are what this pass is after).
+func ownBodies(reps int, renders []func() string) {
+	safe := func(f func() string) (res string) {
+		defer func() {
+			if r := recover(); r != nil {
+				res = fmt.Sprint("panic: ", r)
+			}
+		}()
+		return f()
+	}
+	want := make([]string, len(renders))
+	for i, f := range renders {
+		want[i] = safe(f)
+	}
+	for r := 0; r < reps*6; r++ {
+		var wg sync.WaitGroup
+		got := make([]string, len(renders))
+		for w := 0; w < 8; w++ {
+			wg.Add(1)
+			go func(w int) {
+				defer wg.Done()
+				for i := w; i < len(renders); i += 8 {
+					got[i] = safe(renders[i])
+				}
+			}(w)
+		}
+		wg.Wait()
+		for i := range got {
+			if strings.HasPrefix(got[i], "panic: ") && !strings.HasPrefix(want[i], "panic: ") {
+				fmt.Println("RACEPASS-PANIC", got[i])
+			} else if got[i] != want[i] {
+				fmt.Println("RACEPASS-RESULT-DIFFERS")
+			}
+		}
+	}
+}
+
+func rowsOf(sb align.SeqBag) string {
+	var b strings.Builder
+	sb.IterateChar(func(name string, s []uint8) bool {
+		b.WriteString(name)
+		b.WriteByte('=')
+		b.Write(s)
+		b.WriteByte(';')
+		return false
+	})
+	return b.String()
+}
+
+// ntRows / aaRows: k-th family of rows (different lengths and contents per k).
+func ntRows(k, n int) []string {
+	L := 9 + 3*(k%7)
+	out := make([]string, n)
+	for i := range out {
+		b := make([]byte, L)
+		for j := range b {
+			b[j] = "ACGTacgtNRY-"[(i*5+j*7+k*3+(i*j)%4)%12]
+		}
+		out[i] = string(b)
+	}
+	return out
+}
+
+func aaRows(k, n int) []string {
+	L := 6 + 2*(k%5)
+	out := make([]string, n)
+	for i := range out {
+		b := make([]byte, L)
+		for j := range b {
+			b[j] = "ARNDCQEGHILKMFPSTWYV-X"[(i*3+j*5+k*7+(i*j)%3)%22]
+		}
+		out[i] = string(b)
+	}
+	return out
+}
+
+func mkAln(alpha int, seqs []string) align.Alignment {
+	a := align.NewAlign(alpha)
+	for i, s := range seqs {
+		a.AddSequence(fmt.Sprintf("s%d", i), s, "")
+	}
+	return a
+}
+
+func ownRenders(what string) []func() string {
+	var rs []func() string
+	for k := 0; k < 24; k++ {
+		k := k
+		switch what {
+		case "own-translate":
+			rs = append(rs, func() string {
+				var b strings.Builder
+				for _, code := range []int{align.GENETIC_CODE_STANDARD, align.GENETIC_CODE_VETEBRATE_MITO, align.GENETIC_CODE_INVETEBRATE_MITO} {
+					for fr := 0; fr < 3; fr++ {
+						for _, s := range ntRows(k, 3) {
+							sq := align.NewSequence("s", []uint8(s), "")
+							t, err := sq.Translate(fr, code)
+							if err == nil {
+								b.WriteString(t.Sequence())
+							}
+							b.WriteByte('|')
+						}
+						al := mkAln(align.NUCLEOTIDS, ntRows(k, 3))
+						if err := al.Translate(fr, code); err == nil {
+							b.WriteString(rowsOf(al))
+						}
+						al2 := mkAln(align.NUCLEOTIDS, ntRows(k, 3))
+						if err := al2.TranslateByReference(0, code, "s0"); err == nil {
+							b.WriteString(rowsOf(al2))
+						}
+					}
+				}
+				return b.String()
+			})
+		case "own-strand":
+			rs = append(rs, func() string {
+				var b strings.Builder
+				al := mkAln(align.NUCLEOTIDS, ntRows(k, 4))
+				al.ReverseComplement()
+				b.WriteString(rowsOf(al))
+				al.ReverseComplementSequences("s1", "s2")
+				b.WriteString(rowsOf(al))
+				al.ToUpper()
+				b.WriteString(rowsOf(al))
+				al.ToLower()
+				b.WriteString(rowsOf(al))
+				b.WriteString(rowsOf(al.Unalign()))
+				return b.String()
+			})
+		case "own-extract":
+			rs = append(rs, func() string {
+				var b strings.Builder
+				al := mkAln(align.NUCLEOTIDS, ntRows(k, 4))
+				L := al.Length()
+				if s, err := al.SubAlign(1, L-2); err == nil {
+					b.WriteString(rowsOf(s))
+				}
+				if s, err := al.SelectSites([]int{L - 1, 0, 2, 2}); err == nil {
+					b.WriteString(rowsOf(s))
+				}
+				if t, err := al.Transpose(); err == nil {
+					b.WriteString(rowsOf(t))
+				}
+				st, ln, _ := al.RefCoordinates("s0", 1, 3)
+				fmt.Fprint(&b, st, ln)
+				al.DiffWithFirst()
+				b.WriteString(rowsOf(al))
+				al.ReplaceMatchChars()
+				b.WriteString(rowsOf(al))
+				al.TrimSequences(2, k%2 == 0)
+				b.WriteString(rowsOf(al))
+				return b.String()
+			})
+		case "own-clean":
+			rs = append(rs, func() string {
+				var b strings.Builder
+				al := mkAln(align.NUCLEOTIDS, ntRows(k, 5))
+				f, l, kept, rm := al.RemoveGapSites(0.2, k%2 == 0)
+				fmt.Fprint(&b, f, l, kept, rm, rowsOf(al))
+				al = mkAln(align.NUCLEOTIDS, ntRows(k, 5))
+				f, l, kept, rm = al.RemoveMajorityCharacterSites(0.6, false, true, true)
+				fmt.Fprint(&b, f, l, kept, rm, rowsOf(al))
+				al = mkAln(align.NUCLEOTIDS, ntRows(k, 5))
+				f, l, kept, rm = al.RemoveCharacterSites([]uint8{'N', 'a'}, 0.2, false, true, false, false, false)
+				fmt.Fprint(&b, f, l, kept, rm, rowsOf(al))
+				al = mkAln(align.NUCLEOTIDS, ntRows(k, 5))
+				al.RemoveGapSeqs(0.1, false)
+				b.WriteString(rowsOf(al))
+				return b.String()
+			})
+		case "own-dedup":
+			rs = append(rs, func() string {
+				var b strings.Builder
+				seqs := ntRows(k, 4)
+				seqs = append(seqs, seqs[1], seqs[0])
+				al := mkAln(align.NUCLEOTIDS, seqs)
+				id, _ := al.Deduplicate(k%2 == 0)
+				fmt.Fprint(&b, id, rowsOf(al))
+				al = mkAln(align.NUCLEOTIDS, ntRows(k, 3))
+				w := al.Compress()
+				fmt.Fprint(&b, w, rowsOf(al))
+				return b.String()
+			})
+		case "own-stats":
+			rs = append(rs, func() string {
+				var b strings.Builder
+				al := mkAln(align.NUCLEOTIDS, ntRows(k, 5))
+				c, o, t := al.MaxCharStats(k%2 == 0, k%3 == 0)
+				fmt.Fprint(&b, string(c), o, t)
+				b.WriteString(rowsOf(al.Consensus(false, true)))
+				for j := 0; j < al.Length(); j++ {
+					e, _ := al.Entropy(j, false)
+					fmt.Fprintf(&b, "%x,", e)
+				}
+				fmt.Fprint(&b, al.CharStats(), al.NbVariableSites())
+				g1, g2, g3, _ := al.NumGapsUniquePerSequence(nil)
+				fmt.Fprint(&b, g1, g2, g3)
+				ref := align.NewSequence("r", []uint8(ntRows(k, 1)[0]), "")
+				for _, x := range ntRows(k, 5) {
+					nm, _ := align.NewSequence("x", []uint8(x), "").NumMutationsComparedToReferenceSequence(align.NUCLEOTIDS, ref)
+					fmt.Fprint(&b, nm, ",")
+				}
+				u1, u2, u3, _ := al.NumMutationsUniquePerSequence(nil)
+				fmt.Fprint(&b, u1, u2, u3)
+				return b.String()
+			})
+		case "own-mask":
+			rs = append(rs, func() string {
+				var b strings.Builder
+				al := mkAln(align.NUCLEOTIDS, ntRows(k, 5))
+				al.Mask("", 1, 4, "MAJ", false, false)
+				b.WriteString(rowsOf(al))
+				al.Mask("s0", 2, 5, "AMBIG", true, true)
+				b.WriteString(rowsOf(al))
+				al.MaskOccurences("", 1, "MAJ")
+				b.WriteString(rowsOf(al))
+				al.MaskUnique("s1", "GAP")
+				b.WriteString(rowsOf(al))
+				return b.String()
+			})
+		case "own-sw":
+			rs = append(rs, func() string {
+				var b strings.Builder
+				rows := ntRows(k, 2)
+				for _, alg := range []int{align.ALIGN_ALGO_SW, align.ALIGN_ALGO_ATG} {
+					a := align.NewPwAligner(align.NewSequence("a", []uint8(strings.ToUpper(strings.ReplaceAll(rows[0], "-", "A"))), ""), align.NewSequence("b", []uint8(strings.ToUpper(strings.ReplaceAll(rows[1], "-", "C"))), ""), alg)
+					al, err := a.Alignment()
+					if err == nil {
+						fmt.Fprint(&b, rowsOf(al), a.MaxScore())
+					}
+				}
+				return b.String()
+			})
+		}
+	}
+	return rs
+}
+
 func main() {
 	log.SetOutput(io.Discard)
 	what := os.Args[1]
@@ -283,6 +523,13 @@ func main() {
 			modelBodies(reps)
 		case "gamma":
 			gammaBodies(reps)
+		default:
+			if rs := ownRenders(what); len(rs) > 0 {
+				ownBodies(reps, rs)
+			} else {
+				fmt.Println("RACEPASS-UNKNOWN", what)
+				return
+			}
 		}
 	}
 	fmt.Println("RACEPASS-DONE")
